@@ -1155,7 +1155,34 @@ let main_conc file =
     if !found && not certified then Printf.printf "N lin BAD search-found-an-order-the-certificate-checker-rejects ops=%d\n" n
     else if !found then Printf.printf "N lin OK ops=%d nodes=%d txns=%d certified=1\n" n !nodes !ntxn
     else if !nodes > budget then Printf.printf "N lin UNKNOWN ops=%d nodes=%d (search budget exhausted)\n" n !nodes
-    else Printf.printf "N lin BAD no-sequential-order-explains-the-history ops=%d nodes=%d deepest=%d stuck-at=%s final=%s\n" n !nodes !deepest !deepest_stuck !final_mismatch
+    else begin
+      (* diagnosis only (the verdict stays BAD): is the history explained once the per-entry attributes and handles
+         of READDIRPLUS replies are left out, i.e. is the only thing wrong that one reply mixes the attributes of its
+         entries from different moments (open finding F33)?  Same extracted `step` / `agree`, replies stripped. *)
+      let strip (r : oreply) = match r with
+        | ODir (c, ents, eof) -> ODir (c, List.map (fun e -> { e with de_plus = None }) ents, eof)
+        | _ -> r in
+      let found2 = ref false and nodes2 = ref 0 in
+      let rec search2 (s : afs) (donev : bool array) (k : int) =
+        if !found2 || !nodes2 > budget then () else begin
+          incr nodes2;
+          if k = n then (if cmp_state s ar = [] then found2 := true) else begin
+            let minret = ref max_int in
+            Array.iteri (fun i o -> if not donev.(i) && o.hret < !minret then minret := o.hret) ops;
+            Array.iteri (fun i o ->
+                if not !found2 && not donev.(i) && o.hinv < !minret then begin
+                  match o.hcall, o.hrep with
+                  | Some c, Some r ->
+                    let (s', rr) = step !params s c (hint_of c r) in
+                    if agree s' rr (strip r) then (donev.(i) <- true; search2 s' donev (k + 1); donev.(i) <- false)
+                  | _ -> ()
+                end) ops
+          end
+        end in
+      search2 !st (Array.make n false) 0;
+      Printf.printf "N lin BAD no-sequential-order-explains-the-history%s ops=%d nodes=%d deepest=%d stuck-at=%s final=%s\n"
+        (if !found2 then " (explained-when-READDIRPLUS-entry-attributes-are-separate-reads)" else "") n !nodes !deepest !deepest_stuck !final_mismatch
+    end
   end;
   Printf.printf "DONE ops=%d txns=%d\n" n !ntxn
 
